@@ -34,7 +34,7 @@ type Rec struct {
 	InvAt       time.Duration
 	RetAt       time.Duration
 	TS          uint64 // result of ts / tsa / low / lowa / stale / cw / foreign
-	Failed      bool // the call returned a non-nil error (some library errors have an empty message)
+	Failed      bool   // the call returned a non-nil error (some library errors have an empty message)
 	Err         string
 	ErrKind     string // "" | future | latest-stale | maxint-range | pd | lag | other
 	ReadTS      uint64 // val
@@ -247,10 +247,13 @@ func (w *world) pause(name string, d time.Duration) {
 // deadClient is the tikv.Client of the KVStore used for commit-wait fetches; nothing may use it.
 type deadClient struct{ w *world }
 
-func (c *deadClient) Close() error                                   { return nil }
-func (c *deadClient) CloseAddr(string) error                         { return nil }
-func (c *deadClient) SetEventListener(client.ClientEventListener)    {}
-func (c *deadClient) fail() error                                    { c.w.sim.Count("stub.tikv-request"); return errors.New("oraclesim: no TiKV in this simulation") }
+func (c *deadClient) Close() error                                { return nil }
+func (c *deadClient) CloseAddr(string) error                      { return nil }
+func (c *deadClient) SetEventListener(client.ClientEventListener) {}
+func (c *deadClient) fail() error {
+	c.w.sim.Count("stub.tikv-request")
+	return errors.New("oraclesim: no TiKV in this simulation")
+}
 func (c *deadClient) SendRequest(context.Context, string, *tikvrpc.Request, time.Duration) (*tikvrpc.Response, error) {
 	return nil, c.fail()
 }
